@@ -33,7 +33,10 @@ PROP = {
     "rule": "one case = schema + committed initial rows + 1–4 session programs (begin, 1–3 statements, commit|rollback|drop) "
             "+ one fixed interleaving, stepped through real `Session`s from one thread on a fresh database. Generated: all "
             "interleavings of program pairs when there are ≤ 20 (else 20 sampled), random 3–4-session histories, snapshots "
-            "taken at database birth, and the C03 families; thorough adds 20 triples × all 1680 interleavings. "
+            "taken at database birth, the C03 families, and 80 / 800 cases in which a row a transaction has updated is re-written by a "
+            "later multi-row UPDATE of it that fails on a later row (UNIQUE violation) and is undone, while a concurrent transaction "
+            "updates or deletes that row and commits first (the first one's commit must be refused); thorough adds 20 triples × all "
+            "1680 interleavings. "
             "Non-trivial (`nt`) = some writer (session or autocommit statement) commits or aborts between two reads of "
             "another transaction that stays open; distinct = distinct case line. Tags `clean` / `kf:<feature>` give the "
             "split between the clean region and the single known-finding feature a case carries.",
